@@ -272,10 +272,6 @@ func c12State(run *report.Run, cfg *world.Config, hist []world.Op, acc *pairAcc,
 				continue
 			}
 			atomic.AddInt64(&st.errorsReturned, 1)
-			qual := op.name
-			if op.name == "Insert" || op.name == "Delete" {
-				qual += "(" + layerClass(cfg, op.k) + ")"
-			}
 			desc := append(cfg.DescribeHist(hist), fmt.Sprintf("then %s(%v) with %s #%d failing (and #%d)", op.name, cfg.Key(op.k), f.kind, f.i, f.j))
 			c1, s1, h1 := treeView(w, t)
 			var diffs []string
@@ -289,7 +285,7 @@ func c12State(run *report.Run, cfg *world.Config, hist []world.Op, acc *pairAcc,
 				diffs = append(diffs, "height")
 			}
 			if len(diffs) > 0 {
-				acc.add(cfg, "C12", []explore.Finding{{Sig: fmt.Sprintf("C12|%s|fault=%s|changed:%s|%s|%s", qual, f.kind, strings.Join(diffs, "+"), errOrigin(res.Err), report.Norm(c1.Bad)),
+				acc.add(cfg, "C12", []explore.Finding{{Sig: fmt.Sprintf("C12|%s|changed:%s|%s|%s", op.name, strings.Join(diffs, "+"), errOrigin(res.Err), report.Norm(c1.Bad)),
 					What:   fmt.Sprintf("%s returned an error after a failing %s, but the tree is not what it was before the call (%v changed)", op.name, f.kind, diffs),
 					Detail: fmt.Sprintf("error %v; before %v size=%d height=%d; after %v size=%d height=%d", res.Err, preC, preSize, preH, c1, s1, h1)}}, desc)
 				continue
@@ -298,7 +294,7 @@ func c12State(run *report.Run, cfg *world.Config, hist []world.Op, acc *pairAcc,
 			res2, obs2 := runFOp(w, t, op, aux)
 			c2, s2, h2 := treeView(w, t)
 			if (res2.Err != nil) != (res0.Err != nil) || res2.Panic != nil || obs2 != obs0 || !c2.Equal(postC) || s2 != postSize || h2 != postH {
-				acc.add(cfg, "C12", []explore.Finding{{Sig: fmt.Sprintf("C12|%s|fault=%s|retry-differs|%s|%s", qual, f.kind, errOrigin(res.Err), resClass(res2)),
+				acc.add(cfg, "C12", []explore.Finding{{Sig: fmt.Sprintf("C12|%s|retry-differs|%s|%s", op.name, errOrigin(res.Err), resClass(res2)),
 					What:   fmt.Sprintf("%s retried after a failed %s does not give the normal result", op.name, f.kind),
 					Detail: fmt.Sprintf("fault-free: %v %q -> %v size=%d height=%d; retry: %v %q -> %v size=%d height=%d", res0, obs0, postC, postSize, postH, res2, obs2, c2, s2, h2)}}, desc)
 			}
@@ -312,7 +308,16 @@ func errOrigin(err error) string {
 	s := report.Norm(err.Error())
 	s = strings.ReplaceAll(s, "verif:_injected_fault", "FAULT")
 	s = strings.ReplaceAll(s, "persist_load_<name>:_", "")
-	return "at:" + s
+	// the call site is the first two wrapping prefixes; what failed underneath (a load, a key
+	// comparison on the loaded node, a marshal call) does not make it a different defect
+	parts := strings.Split(s, ":_")
+	if len(parts) > 2 {
+		parts = parts[:2]
+	}
+	if parts[len(parts)-1] == "FAULT" && len(parts) > 1 {
+		parts = parts[:len(parts)-1]
+	}
+	return "at:" + strings.Join(parts, ":_")
 }
 
 func C12Configs(thorough bool) []*world.Config {
